@@ -1,11 +1,13 @@
 PROPERTY = "C02"
 ENCODED = ["linux::dso_debug::write_dso_debug_stream", "PtraceDumper::get_stack_info", "PtraceDumper::sanitize_stack_copy", "MappingInfo::stack_has_pointer_to_mapping",
            "module_reader::{section_header_with_name, ModuleReader::read_name_from_strtab, ProcessMemory::read}", "thread_list_stream::fill_thread_stack",
-           "sections::mappings::write (/dev rule)"]
+           "sections::mappings::write (/dev rule)", "maps_reader::SoVersion::parse (concrete names)", "ModuleReader::soname_from_program_headers (scripted program headers)"]
 BOUNDS = {"dso_debug": "cut by phase with a scripted target memory: AT_PHNUM/AT_PHDR arbitrary (first read fails); 2 arbitrary program headers; 3 arbitrary dynamic entries; arbitrary r_debug + 3 arbitrary link_maps; "
                        "short reads of the program headers, a dynamic entry, r_debug and a link_map; a cyclic link_map list whose reads never fail",
+          "SoVersion::parse": "9 concrete file names (ASCII / multi-byte characters in the third and fourth version component, five components, spaces, no version, overflowing number); every digit pair around a 2-byte character in the thorough tier",
+          "soname_from_program_headers": "DT_SONAME >= DT_STRSZ with both fully symbolic (boundary included)",
           "other kernels": "see the bounds of C06 (get_stack_info), C12 (sanitizer), C20 (pointer scan), C14 (ELF arithmetic)"}
-OUTSIDE = ["the .so version parser SoVersion::parse (string-slicing loops; out of reach in the design round: 13-16 GB / 900 s for one symbolic character)",
+OUTSIDE = ["SoVersion::parse on SYMBOLIC name bytes (3-4 symbolic bytes: no verdict in 1500 s; one symbolic character cost 13-16 GB in the design round): only the listed concrete names are decided, which is a bounded sample of shapes, not all names",
            "/proc/<tid>/status and auxv parsing (BufReader<File> loops inline with I/O)", "thread-name reading", "hangs inside the kernel; wall-clock time (bounded iteration counts are shown, not seconds)",
            "the unbounded dynamic-section scan is bounded only by the size of readable target memory (each step is a successful read)",
            "termination of the link_map walk on a cyclic list: the harness for it (c02_dso_linkmap_cycle_terminates) trips the empty-Vec tool artefact (DESIGN.md 0.5) and is not run; by reading, the walk has no iteration cap"]
